@@ -464,7 +464,15 @@ func (e *Engine) run(fr *Frame) Value {
 						break
 					}
 				}
-				if e.branch(c) {
+				taken := false
+				if e.cfg != nil && e.cfg.FlipOrder {
+					// explore the false side of program branches first (e.g. the "another leading
+					// zero" side of an Exp-Golomb prefix loop, so that large counts come early)
+					taken = !e.branch(e.ts.Not(c))
+				} else {
+					taken = e.branch(c)
+				}
+				if taken {
 					next = block.Succs[0]
 				} else {
 					next = block.Succs[1]
